@@ -244,31 +244,35 @@ def refineOk (cur : Option (List String)) (ns : List String) : Bool :=
   | none => true
   | some c => (List.zip c ns).all (fun p => p.1 == p.2)
 
-/-- mirrors tensordict/base.py:`_validate_value` for a tensordict value set into a result with metadata `rm`
-(`_set_str(…, validated=checked)`: skipped when `checked`): the value is moved to the result's device, and the
-dim names of container and value are reconciled — the value is refined to the container's names
-(RuntimeError when a named dim disagrees), or a container without names adopts the value's. Returns the new
-metadata of the container and the value actually stored. -/
+/-- first step of `_validate_value`: `value.to(device)` when the container has a device and the value another -/
+def moveToDevice (d : Option String) (t : Tree V) : Tree V :=
+  match d, t with
+  | some dev, .node tm _ => if tm.device = some dev then t else Tree.setDevice (some dev) t
+  | _, _ => t
+
+/-- last step of `_validate_value` (`check_shape and self.batch_size`): the value is refined to the container's names
+(RuntimeError when a named dim disagrees), or a container without names adopts the value's -/
+def reconcileNames (rm : Meta) (t : Tree V) : Except Err (Meta × Tree V) :=
+  match t with
+  | .leaf _ => .ok (rm, t)
+  | .node tm _ =>
+    if rm.batch.isEmpty then .ok (rm, t)
+    else
+      match rm.names with
+      | some ns =>
+        if tm.names.map (fun l => l.take rm.batch.length) = some ns then .ok (rm, t)
+        else if refineOk tm.names ns then .ok (rm, Tree.renameAll (some ns) t)
+        else .error .runtime
+      | none =>
+        match tm.names with
+        | some tn => .ok ({ rm with names := some (tn.take rm.batch.length) }, t)
+        | none => .ok (rm, t)
+
+/-- mirrors tensordict/base.py:`_validate_value` for a value set into a result with metadata `rm`
+(`_set_str(…, validated=checked)`: skipped when `checked`; a tensor value of the modelled domain already conforms).
+Returns the new metadata of the container and the value actually stored. -/
 def validateValue (checked : Bool) (rm : Meta) (t : Tree V) : Except Err (Meta × Tree V) :=
-  if checked then .ok (rm, t)
-  else
-    match t with
-    | .leaf _ => .ok (rm, t)
-    | .node tm _ =>
-      let t1 := match rm.device with
-        | some d => if tm.device = some d then t else Tree.setDevice (some d) t
-        | none => t
-      if rm.batch.isEmpty then .ok (rm, t1)          -- `check_shape and self.batch_size`
-      else
-        match rm.names with
-        | some ns =>
-          if tm.names.map (fun l => l.take rm.batch.length) = some ns then .ok (rm, t1)
-          else if refineOk tm.names ns then .ok (rm, Tree.renameAll (some ns) t1)
-          else .error .runtime
-        | none =>
-          match tm.names with
-          | some tn => .ok ({ rm with names := some (tn.take rm.batch.length) }, t1)
-          | none => .ok (rm, t1)
+  if checked then .ok (rm, t) else reconcileNames rm (moveToDevice rm.device t)
 
 /-- write the non-`None` outcomes into the result, creating it on the first one (`result._set_str(key,
 item_trsf, inplace=…, validated=checked)`) -/
